@@ -494,7 +494,7 @@ func render(c Case) string {
 		collect = "out(mv)"
 	}
 	b.WriteString("res = []\nmv = \"S\"\n")
-	body := "\t" + collect + "\n" + yieldStmt("\t", c.Cons.Y)
+	body := "\ttick()\n\t" + collect + "\n" + yieldStmt("\t", c.Cons.Y)
 	switch c.Cons.Recv {
 	case "forin":
 		fmt.Fprintf(&b, "for mv in %s {\n%s}\n", last, body)
@@ -519,7 +519,7 @@ func render(c Case) string {
 		case "rx2":
 			fmt.Fprintf(&b, "w%d = \"W\"\nw%d, k%d = <-%s\nobs += [w%d, k%d]\n", i, i, i, ch, i, i)
 		case "forin":
-			fmt.Fprintf(&b, "q%d = 0\nfor qv in %s {\n\tq%d++\n}\nobs += [q%d]\n", i, ch, i, i)
+			fmt.Fprintf(&b, "q%d = 0\nfor qv in %s {\n\ttick()\n\tq%d++\n}\nobs += [q%d]\n", i, ch, i, i)
 		case "send":
 			fmt.Fprintf(&b, "f%d = 0\ntry {\n\t%s <- %s\n} catch ex {\n\tf%d = 1\n}\nobs += [f%d]\n", i, ch, sendLit(c.Chans[p.Ch].Type), i, i)
 		case "close":
@@ -632,7 +632,7 @@ func renderProc(b *strings.Builder, k int, p Proc, in, out string, fanin bool) {
 		default:
 			e = v
 		}
-		inner := yieldStmt("\t\t\t", p.Y[1]) + fmt.Sprintf("\t\t\t%s <- %s\n", co, e) + yieldStmt("\t\t\t", p.Y[2])
+		inner := "\t\t\ttick()\n" + yieldStmt("\t\t\t", p.Y[1]) + fmt.Sprintf("\t\t\t%s <- %s\n", co, e) + yieldStmt("\t\t\t", p.Y[2])
 		switch p.Recv {
 		case "forin":
 			fmt.Fprintf(&body, "\t\tfor %s in %s {\n%s\t\t}\n", v, ci, inner)
@@ -969,6 +969,9 @@ func judge(c Case, exp [][]mv, r *runResult) *h.Fail {
 	if r.hostPanic != "" {
 		return h.Failf("C16|host-panic|"+v+"|"+r.hostPanicNorm, "a Go panic escaped into the host\nsource:\n%s\npanic: %s", src, r.hostPanic)
 	}
+	if r.runaway {
+		return h.Failf("C16|runaway-loop|"+v, "the receive loops of the program ran more iterations than there are messages (a loop over a channel does not end, or messages are multiplied)\nsource:\n%s", src)
+	}
 	if len(r.gerrs) > 0 {
 		g := r.gerrs[0]
 		return h.Failf("C16|goroutine-error|"+v+"|"+normMsg(g), "a script goroutine failed with an error although every operation it does is defined\nsource:\n%s\nerror: %s", src, g)
@@ -1155,16 +1158,22 @@ func oracleFor(reps int) func(Case, *h.Obs) *h.Fail {
 		o.Note = o.Key
 		classify(c, kinds, o)
 		exp := expect(c)
+		total := 0
+		for _, s := range c.Srcs {
+			total += s.N
+		}
+		// receive-loop iterations: every transformer and the consumer see each item once
+		tickLimit := int64(2*(total+2)*(len(c.Xfs)+2) + 64)
 		for _, procs := range c.Procs {
 			var fail *h.Fail
 			withProcs(procs, func() {
 				for rep := 0; rep < reps && fail == nil; rep++ {
 					o.Class("runs_gomaxprocs_%d", procs)
-					r := runOnce(src, runDeadline)
+					r := runOnce(src, runDeadline, tickLimit)
 					if r.stuck != "" {
 						o.Class("stuck_first_run")
 						first := r.stuck
-						r = runOnce(src, 5*runDeadline)
+						r = runOnce(src, 5*runDeadline, tickLimit)
 						if r.stuck != "" || first == "deadlock" {
 							again := "it did not finish again"
 							if r.stuck == "" {
